@@ -176,6 +176,10 @@ func buildScenarios(c *srcChain) []*scenarioSpec {
 	for i := 0; i < lib.Pick(1, 3); i++ {
 		add(&scenarioSpec{Kind: "silent"})
 	}
+	// the window between peek and pop under peer churn (swap.go); drawn last: the lists above do not move
+	for i := 0; i < lib.Pick(2, 12); i++ {
+		add(&scenarioSpec{Kind: "swap", Swaps: swapPlan(c, rng, muts)})
+	}
 	return out
 }
 
@@ -494,6 +498,15 @@ func parent() {
 	if os.Getenv("C13_ONLY") == "crash-resume" { // development aid
 		scen = scen[:1]
 	}
+	if os.Getenv("C13_ONLY") == "swap" { // development aid
+		var only []*scenarioSpec
+		for _, s := range scen {
+			if s.Kind == "swap" {
+				only = append(only, s)
+			}
+		}
+		scen, crs = only, nil
+	}
 	h0s := map[int64]bool{}
 	for _, s := range crs {
 		h0s[s.H0] = true
@@ -507,13 +520,21 @@ func parent() {
 	})
 
 	nm := len(catalogue())
-	run.SetRule(fmt.Sprintf("source chain: a real single-validator node (chain/core.NewNode) follows consensus live for %d heights with contract deployments/calls, key-value and plain txs and administrative requests (add_peer/update_node/remove_node through the Admin contract and precompile 0xfe) that change size, order and powers of the validator set (%d changes); the syncing node is the same real node with fast_sync=true and a non-validator key in a worker process (one per scenario); its peers are harness peers over TCP. Scenario list fixed by seed and tier (%d scenarios): 1 all-honest control; surgical scenarios running %d episodes = (mutation of the catalogue of %d) x (target height: quick 3 per mutation chosen by relation to a validator-set change at/before/after/far, thorough every applicable height), where the honest peer serves only below the tampered height and one of three malicious peers serves the tampered first block, second block (LastCommit) or forged pair; final scenarios tampering with the last block's LastCommit so that top-1 stays justified (that commit becomes the seen commit the node switches to consensus with), followed by a rebuild of the node on its directory; mix scenarios (every malicious answer tampered with probability p, delays, duplicates, unsolicited answers); silent-peer scenarios (15 s pool timeout). Non-trivial = distinct (mutation, position, target height, relation) whose tampered answer was delivered and whose outcome was observed. Crash-resume scenarios (%d crash points = armed after height h0 in %v x (quick: every ordinal 1..13 of one commit cycle of the fast-sync executer closure, thorough: every ordinal 1..70; plus godb.SetSync 1..6, godb.BatchWrite 1..3, ethdb.BatchWrite 1..4)): the node syncs from three honest peers at the top, the durable-write failpoint sends SIGKILL to the process immediately before the k-th durable write after State.Save of h0, post-mortem of the directory, then the same node is built and started again on that directory with fast_sync=true and the same peers and must reach top-1 within the 160 status rounds with the same stores, state and application state as the live node; non-trivial = distinct (h0, ordinal, site hit, post-mortem shape) that was actually reached.", top, len(c.changes), len(scen), nEp, nm, len(crs), sortedH0(h0s)))
+	nSwap, nSwapWin := 0, 0
+	for _, s := range scen {
+		if s.Kind == "swap" {
+			nSwap++
+			nSwapWin += len(s.Swaps)
+		}
+	}
+	run.SetRule(fmt.Sprintf("source chain: a real single-validator node (chain/core.NewNode) follows consensus live for %d heights with contract deployments/calls, key-value and plain txs and administrative requests (add_peer/update_node/remove_node through the Admin contract and precompile 0xfe) that change size, order and powers of the validator set (%d changes); the syncing node is the same real node with fast_sync=true and a non-validator key in a worker process (one per scenario); its peers are harness peers over TCP. Scenario list fixed by seed and tier (%d scenarios): 1 all-honest control; surgical scenarios running %d episodes = (mutation of the catalogue of %d) x (target height: quick 3 per mutation chosen by relation to a validator-set change at/before/after/far, thorough every applicable height), where the honest peer serves only below the tampered height and one of three malicious peers serves the tampered first block, second block (LastCommit) or forged pair; final scenarios tampering with the last block's LastCommit so that top-1 stays justified (that commit becomes the seen commit the node switches to consensus with), followed by a rebuild of the node on its directory; mix scenarios (every malicious answer tampered with probability p, delays, duplicates, unsolicited answers); silent-peer scenarios (15 s pool timeout); %d swap scenarios with %d planned windows (targets seeded, spread over the chain, at least 3 apart, never the last two heights): all four peers announce the full height, the honest peer answers genuinely, a malicious peer asked for h or h+1 of a window not opened yet leaves and comes back instead of answering; at verifhook.Point(blockchain.PeekTwoBlocks) on poolRoutine's goroutine (after the peek of h and h+1, before h is judged, popped and executed) with the block store at h-1 and both honest answers acknowledged by a status round trip on the same connection, the honest peer's connection is closed, the harness waits (2 s watchdog) until the node's switch no longer lists it (the requester of h re-picks a malicious peer), the malicious peers push a forged block for h (forged block with consistent hashes / a seeded content mutation) 70 rounds 5 ms apart into the re-assigned requester, the routine goes on, the honest peer comes back; a window counts as staged when the peer was seen removed and a push went out while it was open, and as gone-on when the next Point finds the block store at >= h (the routine went straight from the peeked pair to execution); the store oracle runs on the director's goroutine at that Point, before the node touches h+1. Non-trivial = distinct (mutation, position, target height, relation) whose tampered answer was delivered and whose outcome was observed, and distinct staged swap windows (mutation, height, relation). Crash-resume scenarios (%d crash points = armed after height h0 in %v x (quick: every ordinal 1..13 of one commit cycle of the fast-sync executer closure, thorough: every ordinal 1..70; plus godb.SetSync 1..6, godb.BatchWrite 1..3, ethdb.BatchWrite 1..4)): the node syncs from three honest peers at the top, the durable-write failpoint sends SIGKILL to the process immediately before the k-th durable write after State.Save of h0, post-mortem of the directory, then the same node is built and started again on that directory with fast_sync=true and the same peers and must reach top-1 within the 160 status rounds with the same stores, state and application state as the live node; non-trivial = distinct (h0, ordinal, site hit, post-mortem shape) that was actually reached.", top, len(c.changes), len(scen), nEp, nm, nSwap, nSwapWin, len(crs), sortedH0(h0s)))
 	run.Assume("the reference for 'a node that followed consensus live' is the source node itself: per-height state published by its engine, blocks and application state read through its query interface",
 		"fault model: the harness signs with keys of validators holding < 1/3 of the power, with keys of nobody, and with V0's key only votes V0 can have produced for the same block (prevote); it never signs another block with V0's key",
 		"re-admission to the pool: peers re-announce their height every 25 ms during episodes and every 250 ms (at most 160 times) in the final phase, a stand-in for the node's 10 s status-request ticker; the pool's own timers run in real time",
 		"the node leaving fast sync early because every peer claiming a greater height happened to be out of its pool at a one-second tick is repeated once and otherwise not judged (pool.IsCaughtUp trusts peers' claims; C08/C12 territory)",
 		"exactly-2/3 commits cannot be produced within the fault model on a chain whose single honest validator must hold > 2/3 to make progress alone",
-		"crash-resume: the process is killed by SIGKILL to itself from the durable-write failpoint (build tag verif), the operating system and LevelDB keep what was written before; the arming point is the debug line 'save to db' of the executer closure seen synchronously through the node's logger; no operator action between kill and restart (same directory, same configuration, fast_sync=true)")
+		"crash-resume: the process is killed by SIGKILL to itself from the durable-write failpoint (build tag verif), the operating system and LevelDB keep what was written before; the arming point is the debug line 'save to db' of the executer closure seen synchronously through the node's logger; no operator action between kill and restart (same directory, same configuration, fast_sync=true)",
+		"swap: the interleaving is forced from verifhook.Point(blockchain.PeekTwoBlocks) (build tag verif), which holds poolRoutine between peek and judgement while the node's receive paths run; that the honest answers were in the pool at the peek is inferred from the node's status response to a status request sent after them on the same connection (Receive is sequential per connection); whether a forged push landed in the re-assigned requester is not observable on a correct node (it pops the requester and drops the block)")
 	// crash-resume: a crash point that was never reached is counted, not judged; enough must be reached
 	if len(crs) > 0 {
 		run.Require("crash_resume_points_reached_distinct", 8)
@@ -528,6 +549,12 @@ func parent() {
 	}
 	if os.Getenv("C13_ONLY") == "crash-resume" {
 		run.Inconclusive("development run: crash-resume scenarios only")
+		finish()
+	}
+	if os.Getenv("C13_ONLY") == "swap" {
+		run.Inconclusive("development run: swap scenarios only")
+		run.Require("swap_windows_staged", int64(nSwapWin)/2)
+		run.Require("swap_windows_staged_and_peeked_pair_went_on", int64(nSwapWin)/2)
 		finish()
 	}
 	total := int64(len(scen))
@@ -548,6 +575,10 @@ func parent() {
 	run.Require("verifier_rejections", int64(nEp)/2)
 	run.Require("mutations_judged", int64(nm*8/10))
 	run.Require("cells", int64(nm*lib.Pick(12, 25)/10))
+	// swap scenarios: a run that staged no window between peek and pop says nothing about it (the waits in
+	// the window are watchdogs: they decide whether a window counts, never the verdict)
+	run.Require("swap_windows_staged", int64(nSwapWin)/2)
+	run.Require("swap_windows_staged_and_peeked_pair_went_on", int64(nSwapWin)/2)
 	finish()
 }
 
